@@ -12,7 +12,7 @@ from props.C16 import _enc_dict
 
 REQUIRED_THEOREMS = ['Usid.C05.returned_is_genuine', 'Usid.C05.resume_is_most_recent_partial', 'Usid.C05.else_fresh',
                      'Usid.C05.malformed_never_used', 'Usid.C05.override_fresh_and_frame', 'Usid.C05.complete_iff_nothing_pending']
-RULE = ('[also: histories written by the library itself for two datasets of the same name in different groups, results next to the source / in a common group / in another file] [also: float / string lists and booleans as parameters, one value against a list of values, a recorded source reference pointing at this or at ANOTHER dataset of the file, verbose=True; no group other than the reused one may change] histories of 0-5 earlier result groups (built with raw h5py) over dataset names {Raw, Raw_Data, Data, aw} x tools '
+RULE = ('[also: the same construction as rank 1 of an MPI job - every rank must classify the earlier groups alike] [also: histories written by the library itself for two datasets of the same name in different groups, results next to the source / in a common group / in another file] [also: float / string lists and booleans as parameters, one value against a list of values, a recorded source reference pointing at this or at ANOTHER dataset of the file, verbose=True; no group other than the reused one may change] histories of 0-5 earlier result groups (built with raw h5py) over dataset names {Raw, Raw_Data, Data, aw} x tools '
         '{Fit, Fitter, it, Fit_x}, parameters equal or differing in one value (including a large whole number off by one and a float off by a relative 4e-8)/type/length/key, progress records of every '
         'kind (complete, partial, legacy attribute only, neither, wrong dtype/length/rank, non-dataset, values outside '
         '{0,1}, nearly complete large N), same-file and separate-file targets (also a foreign source with the same '
@@ -297,6 +297,14 @@ def run_impl(inp, work):
         p = r[1]
         out = {'dups': [g.name.split('/')[-1] for g in p.duplicate_h5_groups],
                'partials': [g.name.split('/')[-1] for g in p.partial_h5_groups]}
+        # what ANOTHER rank of an MPI job makes of the same groups (every rank must reach the same verdict)
+        with procs.fake_mpi(1, 2), Machine(4, 2 ** 33), quiet():
+            r1 = call(lambda: RowProc(mains[inp['dset']], process_name=inp['tool'], parms=inp['query_parms'], cores=1, **kw))
+        if r1[0] == 'ok' and getattr(r1[1], 'mpi_rank', 0) == 1:
+            out['rank1'] = {'dups': [g.name.split('/')[-1] for g in r1[1].duplicate_h5_groups],
+                            'partials': [g.name.split('/')[-1] for g in r1[1].partial_h5_groups]}
+        elif r1[0] == 'err':
+            out['rank1'] = {'err': r1[1]}
         after_construct = {k: _dump(parent[k]) for k in names}
         with Machine(4, 2 ** 33), quiet():
             r2 = call(lambda: p.compute(override=inp['override']))
@@ -347,6 +355,10 @@ def oracle(inp, obs):
     fails = []
     if 'construct_err' in obs:
         return ['construct: constructing the process raised %s' % obs['construct_err']]
+    if 'rank1' in obs and (obs['rank1'].get('err') or obs['rank1'].get('dups') != obs['dups'] or
+                           obs['rank1'].get('partials') != obs['partials']):
+        fails.append('ranks-disagree: rank 1 of an MPI job classifies the earlier groups as %s, rank 0 as dups %s / partials %s'
+                     % (obs['rank1'], obs['dups'], obs['partials']))
     names = ['%s-%s_%03d' % (pr['dset'], _nt(pr['tool']), pr['index']) for pr in inp['prior']]
     byname = dict(zip(names, inp['prior']))
     n = inp['n']
